@@ -140,7 +140,8 @@ def _probe_case(sel, seed, k):
     return dict(kind="probe", gpts=list(gpts), extent=list(extent), energy=energy, cutoff=cut, soft=bool(sel["soft"]),
                 aperture=ap, aber_set=int(sel["aber"]), aber=_aber(sel["aber"], r), tilt=_tilt(TILTS[sel["tilt"]], r),
                 positions=_positions(POSITIONS[sel["pos"]], extent, r), lazy=lazy, max_batch=mb,
-                rebuild=bool(r.random() < 0.25))
+                rebuild=bool(r.random() < 0.25),
+                features=(["aberration_dist"] if sel["aber"] in (8, 9) else []) + (["tilt_dist"] if sel["tilt"] >= 5 else []))
 
 
 def cases(tier, seed):
